@@ -188,16 +188,17 @@ theorem appendRow_length (table : List (List Str)) (vals : List Str) (h : vals.l
   simp [appendRow, h]
 
 theorem loop_data (D : List (Str × Str × Str)) (defined : List Str) (chans : List Chan) (hlen : defined.length = chans.length)
-    (n : Nat) (lines : List Str) (toks : List (List Str)) (table : List (List Str)) (hT : table.length = n)
+    (n : Nat) (lines : List Str) (toks : List (List Str)) (table : List (List Str)) (rest : List Str) (hT : table.length = n)
     (h : List.Forall₂ (fun l t => splitWs (prep l) = t ∧ t.length = n) lines toks) :
-    loop false ⟨D, false, defined, chans, table⟩ lines = .ok ⟨D, false, defined, chans, toks.foldl appendRow table⟩ := by
+    loop false ⟨D, false, defined, chans, table⟩ (lines ++ rest) =
+      loop false ⟨D, false, defined, chans, toks.foldl appendRow table⟩ rest := by
   induction lines generalizing toks table with
   | nil => cases h; rfl
   | cons l ls ih =>
     cases h with
     | cons h1 h2 =>
       rename_i t ts
-      rw [loop]
+      rw [List.cons_append, loop]
       simp only [hlen, ne_eq, not_true_eq_false, if_false, Bool.false_eq_true, h1.1, h1.2, hT]
       rw [List.foldl_cons]
       exact ih ts _ (by rw [appendRow_length table t (by omega)]; exact hT) h2
